@@ -152,6 +152,8 @@ def mc_job(name, module, cfgs, props, export=True, strict=True, cap_q=None, cap_
     return job
 
 
+# TLAPS proofs checked in the thorough tier: the replay window (ring buffer of replay_protection.rs) never accepts a sequence twice
+PROOFS = {"C04": ["ReplayWindow"]}
 STRICT_GENERATED = os.environ.get("VERIF_STRICT_GENERATED", "1") != "0"
 STRICT_QUICK_STEPS = int(os.environ.get("VERIF_STRICT_QUICK_STEPS", "800"))
 TIER = ["quick"]
@@ -240,6 +242,12 @@ def run_check(pid, tier, replay=None):
                         chunk, size = [], 0
                 if chunk:
                     batches.append(("model:" + res["name"], chunk))
+
+    # machine-checked proofs that belong to the property (thorough tier): an unproved obligation is a tool failure, not a verdict
+    proofs = []
+    if not replay and tier != "quick":
+        for mod in PROOFS.get(pid, []):
+            proofs.append(C.tlaps_proof(mod, wd))
 
     total_events = total_runs = total_states = 0
     hashes, nontriv = set(), set()
@@ -346,6 +354,7 @@ def run_check(pid, tier, replay=None):
         "further_flagged_runs_not_written_out": more_violations,
         "model_checking": [{k: v for k, v in r.items() if k not in ("text", "schedules")} for r in mc_results],
         "strict_pass": strict_tot,
+        "tlaps_proofs": proofs,
         "drift_samples": drift_samples,
         "build_s": round(build_s, 1),
     }
@@ -363,6 +372,9 @@ def run_check(pid, tier, replay=None):
               (pid, plan.monitor, strict_tot["drift_runs"], strict_tot["runs"], json.dumps(drift_samples[:2])[:300]))
     if violations:
         return 1
+    if any(not p["ok"] for p in proofs):
+        print("TOOL property=%s tlapm could not prove %s" % (pid, [p["module"] for p in proofs if not p["ok"]]))
+        return 2
     print("OK property=%s tier=%s runs=%d events=%d mc_states=%d wall=%.1fs" % (pid, tier, total_runs, total_events, mc_states, wall))
     return 0
 
